@@ -124,7 +124,9 @@ class C12(CheckBase):
             img = os.path.join(top, "img", name)
             with open(img, "wb") as fh:
                 fh.write(data_w)
-            for c in ("canary", "sibling/canary", "dest/canary", "../canary-up"):
+            # (the canary inside dest/ has a name no DFS file can have -- longer than dir + '.' + 7 characters --
+            # because overwriting a file of the same name inside the destination is legitimate)
+            for c in ("canary", "sibling/canary", "dest/canary-in-destination", "../canary-up"):
                 with open(os.path.join(top, c), "wb") as fh:
                     fh.write(b"canary " + c.encode())
             dest = case["dest"].replace("ABS", os.path.join(top, "dest"))
@@ -152,7 +154,7 @@ class C12(CheckBase):
                     bad = []
                     for k in changed:
                         ok = (os.path.dirname(k) == "top/dest" and after.get(k, ("",))[0] == "file"
-                              and k != "top/dest/canary")
+                              and k != "top/dest/canary-in-destination")
                         if not ok:
                             bad.append(k)
                     if bad:
